@@ -299,7 +299,7 @@ pub(crate) fn run(replay: Option<&str>) -> Report {
         rep.machinery_error = take_machinery();
         return rep;
     }
-    let depth = if rep.thorough() { 30 } else { 6 };
+    let depth = if rep.thorough() { 30 } else { 7 };
     rep.rule = format!("explicit-state BFS depth {depth} over LIVE sessions with a configured prefix limit (1 and 2; with and without graceful restart): establish / announce / withdraw of 2-3 prefixes / TCP drop / End-of-RIB / restart-timer expiry; the session's prefix-limit counter against a recount of the RIB (both readings), the limit signal (Cease 6/1) exactly when a new distinct prefix would exceed the maximum, received/accepted statistics against a recount");
     for m in &ms {
         bfs::bfs(m, &BfsCfg { max_depth: depth, max_secs: if rep.thorough() { 900 } else { 25 }, ..Default::default() }, &mut rep);
